@@ -53,7 +53,7 @@ func run(c *core.Ctx) {
 	c.SetRule(fmt.Sprintf("(1) EXHAUSTIVE small scope: every body over {unique ordinary byte, '\\n', '\\r'} of length 0..%d x every composition of the length into read sizes x {EOF after / together with the last read}, served sequentially through the same plugin instances (emulate_mode no; lengths 0..%d again through elasticsearch /_bulk; lengths 0..%d gzip-encoded in several block/member layouts x wire chunkings); "+
 		"(2) seeded bodies with lines around and beyond the 16 KiB read buffer, multi-byte runes, CRLF, empty lines, read plans (1-byte, fixed, random, boundaries at newlines, empty reads), gzip layouts, injected transport errors and truncated gzip streams, a sample over loopback TCP with chunked transfer encoding; "+
 		"(3) 2..32 requests in flight together on one instance under the race detector, every line tagged with request and index. "+
-		"distinct_nontrivial = distinct shapes: per read the pattern of newline / CR / run-of-ordinary-bytes (exhaustive part), generator class x encoding x body class (seeded part), round composition x measured interleaving (concurrent part)",
+		"distinct_nontrivial = distinct shapes: per read the pattern of newline / CR / run-of-ordinary-bytes (exhaustive part up to length 7; beyond that per read only newline-at-start / inside / at-end), generator class x encoding x body class (seeded part), round composition x measured interleaving (concurrent part)",
 		maxLen, c.N(5, 7), c.N(4, 6)))
 	c.Assume("the recording InputPluginController copies the data bytes during In, like pipeline.In does; data is not looked at after In returned")
 	c.Assume("gzip streams are produced by the Go standard library writer; several members decompress to the concatenation of their contents (RFC 1952)")
@@ -116,7 +116,7 @@ func run(c *core.Ctx) {
 		opt := core.ChildOpt{Timeout: 40 * time.Minute, GOMAXPROCS: 2}
 		res := core.RunChild("seq", in, opt)
 		handleRaces(res, in)
-		if !res.Completed {
+		if !completed(res) {
 			handleCrash("seq", in, res, opt, false)
 			return
 		}
@@ -160,7 +160,7 @@ func run(c *core.Ctx) {
 		opt := core.ChildOpt{Timeout: 20 * time.Minute, GOMAXPROCS: []int{4, 2, 8, 3}[i%4]}
 		res := core.RunChild("conc", in, opt)
 		handleRaces(res, in)
-		if !res.Completed {
+		if !completed(res) {
 			handleCrash("conc", in, res, opt, true)
 			return
 		}
@@ -262,17 +262,19 @@ func stripLine(site string) string {
 	return site
 }
 
-// raceTouchesBuffers: does either stack of the report run through the code
-// that owns / fills / hands over the request buffers? (plugin: processBulk,
+// raceTouchesBuffers: is one of the two racing ACCESS SITES (first file.d /
+// harness frame of each stack) in the code that owns / fills / hands over the
+// request buffers? (plugin: processBulk,
 // processChunk, newReadBuff, newEventBuffs; harness: the body reader copying
 // into the plugin's read buffer, the recorder copying the handed data)
 func raceTouchesBuffers(rep string) bool {
+	key := raceKey(rep)
 	for _, f := range []string{
 		"plugin/input/http.(*Plugin).processBulk", "plugin/input/http.(*Plugin).processChunk",
 		"plugin/input/http.(*Plugin).newReadBuff", "plugin/input/http.(*Plugin).newEventBuffs",
 		"main.(*chunkReader).Read", "main.(*concRec).In", "main.(*recorder).In",
 	} {
-		if strings.Contains(rep, f) {
+		if strings.Contains(key, f) {
 			return true
 		}
 	}
@@ -310,4 +312,11 @@ func raceKey(rep string) string {
 		return core.RaceKey(rep)
 	}
 	return strings.Join(sites, " <-> ")
+}
+
+// completed: the workload returned and wrote its output. A child in which the
+// race detector reported something exits with status 66 even though the
+// workload finished (core.ChildResult.Completed is false then).
+func completed(res *core.ChildResult) bool {
+	return res.Completed || (len(res.Out) > 0 && !res.TimedOut && res.ExitCode == 66 && len(res.RaceReports) > 0)
 }
